@@ -5,6 +5,7 @@ import GoMailModel.Mime.Fold
 import GoMailModel.Mime.Body
 import Driver.MsgOps
 import Driver.SmtpOps
+import GoMailModel.Eml.Params
 /-
   gmdriver: one operation per input line, one reply line per operation.
   Every reply is computed by the executable model definitions the theorems are about.
@@ -15,6 +16,16 @@ def handle (toks : List String) : String :=
   match toks with
   | "msg" :: ops => MsgOps.handle ops
   | "smtp" :: ops => SmtpOps.handle ops
+  | ["mph", v] =>
+    match decBytes v with
+    | some b =>
+      let (h, opts) := Eml.parseMultiPartHeader b
+      -- a Go map: keep the last assignment per key, print sorted by key
+      let keys := (opts.map (·.1)).eraseDups
+      let kvs := keys.filterMap (fun k => (Eml.optGet opts k).map (fun val => k ++ [61] ++ val))
+      let sorted := kvs.toArray.qsort (fun a b => Mime.bytesLt a b) |>.toList
+      encBytes h ++ " " ++ encList sorted
+    | none => "bad-arg"
   | ["envaddr", a] =>
     match decBytes a with
     | some v => encBytes (GoMail.Smtp.envelopeAddress v)
